@@ -1,6 +1,6 @@
 SPECIFICATION Spec
 CONSTANT MaxGiven = 3
-CONSTANT AllInvalid = FALSE
+CONSTANT Combo = "valid"
 INVARIANT TypeOK
 INVARIANT Total
 INVARIANT GivenReaches
